@@ -269,7 +269,14 @@ def run(tier: str, seed: int) -> int:
         pick2, strata = fx.stratified_sample(two, lambda c: (c['expr'][0], c['expr'][-3] if len(c['expr']) > 5 else '', c['err']), 60, seed)
         if len(pick2) > 1500:
             pick2 = rng.sample(pick2, 1500)
-        picked = one + pick2
+        # two-call sessions in which the third operand is a view (inverse / transpose) of one of the first two, or the
+        # other way round: the construction-time shortcuts look at exactly these neighbours, in either grouping
+        views = {('A', 'AI'), ('D', 'DI'), ('R1', 'R1T'), ('Pr', 'PrT'), ('Bd', 'BdT')}
+        views |= {(b, a) for a, b in views}
+        have = {c['id'] for c in pick2}
+        rel = [c for c in two if c['id'] not in have and len(c['expr']) == 6
+               and any((c['expr'][i], c['expr'][4]) in views for i in (1, 2))]
+        picked = one + pick2 + rel
     else:
         picked = cases
     picked.sort(key=lambda c: c['expr'][1])
